@@ -108,6 +108,8 @@ def generate(seed, index, tier):
         case["forms"] = [ch.choice(FORMS) for _ in pieces[1:]]
         case["noise"] = [[ch.choice(NOISE) for _ in range(ch.int(0, 2))] if ch.coin(0.5) else [] for _ in pieces[1:]]
         case["pathobj"] = [ch.coin(0.5) for _ in range(9)]
+        if ch.coin(0.2):
+            case["pads"] = [[ch.choice(["", " ", "\n", "\t "]), ch.choice(["", " ", "  \n"])] for _ in range(3)]
         if ch.coin(0.35):
             # a control coordinate (never an end point) of a curve in any piece but the last
             cands = []
@@ -223,6 +225,10 @@ def execute(case, se, out, trace):
 def _execute_once(case, se, out, trace, se_ref, label=""):
     V = core.Violation
     pieces = [gp.render(p, st) for p, st in zip(case["pieces"], case["styles"])]
+    pads = case.get("pads")
+    if pads:
+        # legal white space around the pieces
+        pieces = [pads[i % len(pads)][0] + x + pads[i % len(pads)][1] for i, x in enumerate(pieces)]
     mode = case["mode"]
     trace.ev("case", mode, *pieces)
     # start object
